@@ -226,21 +226,7 @@ Section P.
     follows f ids ms a -> NoDup ids -> (forall q, In q ids -> In q (map fst a)) -> List.length a = List.length ids.
   Proof.
     intros F ND C. assert (K := follows_keys _ _ _ _ F). destruct F as [L _].
-    destruct (Nat.eq_dec (List.length a) (List.length ids)) as [E|Hne]; [exact E|exfalso].
-    assert (Hlt : List.length a < List.length ids) by lia.
-    assert (Hin : In (nth (List.length a) ids 0) (firstn (List.length a) ids)).
-    { rewrite <- K. apply C. apply nth_In. exact Hlt. }
-    rewrite <- (firstn_skipn (List.length a) ids) in ND. apply NoDup_app_remove_l in ND as ND2.
-    assert (Hs : In (nth (List.length a) ids 0) (skipn (List.length a) ids)).
-    { rewrite <- (firstn_skipn (List.length a) ids) at 1. rewrite app_nth2; rewrite firstn_length, Nat.min_l by lia; [|lia].
-      rewrite Nat.sub_diag. destruct (skipn (List.length a) ids) eqn:Es.
-      - exfalso. assert (X := skipn_length (List.length a) ids). rewrite Es in X. simpl in X. lia.
-      - left. reflexivity. }
-    clear ND2. revert Hin Hs ND. generalize (firstn (List.length a) ids) (skipn (List.length a) ids) (nth (List.length a) ids 0).
-    intros l1 l2 x H1 H2 ND. induction l1 as [|y l1 IH]; [contradiction|].
-    simpl in ND. inversion ND as [|? ? Hnot ND']; subst. destruct H1 as [->|H1].
-    - apply Hnot. apply in_or_app. right. exact H2.
-    - apply IH; assumption.
+    apply nodup_prefix_cover; [exact ND|exact L|]. intros q Hq. rewrite <- K. apply C. exact Hq.
   Qed.
 
   Lemma pass_kept_specs (md : mode V) (n n' : node) (sp : list (nat * spec V)) :
@@ -280,7 +266,7 @@ Section P.
       exists s, nth_error sp i = Some (nth i (ordered_ids V n) d, s) /\
                 DM a' r nl n (nth i (ordered_ids V n) d) (nth i means dm) = Ok s.
   Proof.
-    intros W E. destruct (pass_kept_specs _ n n' sp W I E) as [a [f [ms [Ea [F [Len [Esp [Ef Ems]]]]]]]]. subst f ms.
+    intros W E. destruct (pass_kept_specs (MMeans a' r nl means) n n' sp W I E) as [a [f [ms [Ea [F [Len [Esp [Ef Ems]]]]]]]]. subst f ms.
     assert (L2 : List.length a = Nat.min (List.length (ordered_ids V n)) (List.length means)) by (simpl in Ea; apply (zip_derive_spec _ _ _ _ Ea)).
     rewrite PAFC01.Proofs2.ordered_ids_length in L2.
     split; [|split; [lia|]].
@@ -302,7 +288,7 @@ Section P.
       exists s, nth_error sp i = Some (nth i (ordered_ids V n) d, s) /\
                 DB b (nth i (ordered_ids V n) d) (nth i floats dm) = Ok s.
   Proof.
-    intros W E. destruct (pass_kept_specs _ n n' sp W I E) as [a [f [ms [Ea [F [Len [Esp [Ef Ems]]]]]]]]. subst f ms.
+    intros W E. destruct (pass_kept_specs (MBounded b floats) n n' sp W I E) as [a [f [ms [Ea [F [Len [Esp [Ef Ems]]]]]]]]. subst f ms.
     assert (L2 : List.length (ordered_ids V n) <= List.length floats) by (simpl in Ea; apply (index_derive_spec _ _ _ _ Ea)).
     rewrite PAFC01.Proofs2.ordered_ids_length in L2.
     split; [|split; [lia|]].
@@ -332,19 +318,15 @@ Section P.
     destruct (last_path V q n) as [p|]; [|discriminate].
     destruct (cfg_name p) as [name|e]; [|discriminate].
     destruct (lookup_nat q specs) as [old|]; [|discriminate].
-    destruct a' as [x|], r as [y|]; try discriminate;
-      match type of E with
-      | (if neg_sigma ?w then _ else _) = _ => destruct (neg_sigma w) eqn:Ns; [discriminate|]
-      end;
-      match type of E with
-      | (if bad_limits ?l ?h then _ else _) = _ => destruct (bad_limits l h) eqn:Bl; [discriminate|]
-      end; inversion E; subst; simpl; repeat split; auto;
-      try (eexists; split; [reflexivity|reflexivity]);
-      try (intros x0 Hx; inversion Hx; subst; reflexivity);
-      try (intros x0 Hx; discriminate Hx);
-      try (intros x0 _ Hx; inversion Hx; subst; reflexivity);
-      try (intros x0 _ Hx; discriminate Hx);
-      try (intro Hn; rewrite Hn; simpl; split; reflexivity).
+    destruct a' as [x|]; destruct r as [y|]; try discriminate; cbv beta iota zeta in E.
+    all: match type of E with (if neg_sigma ?w then _ else _) = _ => destruct (neg_sigma w) eqn:Ns; [discriminate|] end.
+    all: match type of E with (if bad_limits ?l ?h then _ else _) = _ => destruct (bad_limits l h) eqn:Bl; [discriminate|] end.
+    all: inversion E; subst; clear E; cbn [s_fam s_mean s_sigma s_lo s_hi s_wm].
+    all: split; [reflexivity|]; split; [reflexivity|]; split; [exact Ns|]; split; [exact Bl|];
+         split; [exists old; split; reflexivity|].
+    all: split; [intros x0 Hx; try discriminate Hx; inversion Hx; subst; reflexivity|].
+    all: split; [intros x0 Ha Hx; try discriminate Ha; try discriminate Hx; inversion Hx; subst; reflexivity|].
+    all: intro Hn; rewrite Hn; simpl; split; reflexivity.
   Qed.
 
   Lemma derive_bounded_shape (b : V) (q : nat) (f : V) (s : spec V) :
